@@ -219,6 +219,122 @@ fn judge_document(m: &mut Mon, x: &Exchange, cfg: &HashMap<String, ResponseAndMe
     }
 }
 
+/// One POST over a fresh TCP connection; returns (status line, ETag header if any, body bytes as sent).
+fn tcp_post(host: &str, port: u16, parts: &http::request::Parts, body: &[u8]) -> Result<(String, Option<Vec<u8>>, Vec<u8>), String> {
+    use std::io::{Read, Write};
+    let mut sk = std::net::TcpStream::connect((host, port)).map_err(|e| format!("connect: {e}"))?;
+    sk.set_read_timeout(Some(std::time::Duration::from_secs(10))).ok();
+    let mut head = format!("POST {} HTTP/1.1\r\nHost: {}\r\nConnection: close\r\nContent-Length: {}\r\n", origin_form(&parts.uri), parts.uri.authority().map(|a| a.as_str()).unwrap_or(""), body.len());
+    for (k, v) in parts.headers.iter() {
+        head.push_str(&format!("{}: {}\r\n", k, v.to_str().unwrap_or("")));
+    }
+    head.push_str("\r\n");
+    sk.write_all(head.as_bytes()).map_err(|e| format!("write: {e}"))?;
+    sk.write_all(body).map_err(|e| format!("write: {e}"))?;
+    let mut raw = vec![];
+    sk.read_to_end(&mut raw).map_err(|e| format!("read: {e}"))?;
+    let split = raw.windows(4).position(|w| w == b"\r\n\r\n").ok_or("no header end")?;
+    let head_txt = String::from_utf8_lossy(&raw[..split]).to_string();
+    let status = head_txt.lines().next().unwrap_or("").to_string();
+    let etag = head_txt.lines().find_map(|l| l.split_once(':').filter(|(k, _)| k.eq_ignore_ascii_case("etag")).map(|(_, v)| v.trim().as_bytes().to_vec()));
+    let chunked = head_txt.lines().any(|l| l.to_ascii_lowercase().starts_with("transfer-encoding") && l.to_ascii_lowercase().contains("chunked"));
+    let mut payload = raw[split + 4..].to_vec();
+    if chunked {
+        // de-chunk
+        let mut out = vec![];
+        let mut rest = &payload[..];
+        loop {
+            let Some(eol) = rest.windows(2).position(|w| w == b"\r\n") else { break };
+            let n = usize::from_str_radix(String::from_utf8_lossy(&rest[..eol]).trim(), 16).unwrap_or(0);
+            if n == 0 || rest.len() < eol + 2 + n {
+                break;
+            }
+            out.extend_from_slice(&rest[eol + 2..eol + 2 + n]);
+            rest = &rest[(eol + 2 + n + 2).min(rest.len())..];
+        }
+        payload = out;
+    }
+    Ok((status, etag, payload))
+}
+
+/// The mock server's own binary (its main.rs, compiled into this harness and run in a child process) started with
+/// a configured key id — with an explicit key file and with the default one — signs for exactly that key id.
+fn cli_probe(args: &Args, r: &mut Report) {
+    use std::io::BufRead;
+    let repo = env!("VERIF_REPO_DIR");
+    let key_file = format!("{}/mock-omaha-server/src/testing_keys/test_private_key.pem", repo);
+    let Ok(pem) = std::fs::read_to_string(&key_file) else {
+        r.note_once("cli probe: test key file not found");
+        return;
+    };
+    let Ok(sk) = pem.parse::<p256::ecdsa::SigningKey>() else {
+        r.note_once("cli probe: test key does not parse");
+        return;
+    };
+    let vk = VerifyingKey::from(&sk);
+    let Ok(exe) = std::env::current_exe() else { return };
+    let mut rng = Rng::derive(args.seed, args.shard, 1718, 0);
+    for explicit_key_path in [true, false] {
+        let key_id: u64 = *rng.pick(&[7u64, 1, 42, 123456789]);
+        let mut cmd = std::process::Command::new(&exe);
+        cmd.env("VERIF_AS_MOCK_MAIN", "1").current_dir(repo).arg("--key-id").arg(key_id.to_string()).arg("--listen-on").arg("::1").arg("--port").arg("0");
+        if explicit_key_path {
+            cmd.arg("--key-path").arg(&key_file);
+        }
+        cmd.stdout(std::process::Stdio::piped()).stderr(std::process::Stdio::null());
+        let Ok(mut child) = cmd.spawn() else {
+            r.note_once("cli probe: cannot spawn the child process");
+            continue;
+        };
+        let mut line = String::new();
+        let got = child.stdout.take().map(|o| std::io::BufReader::new(o).read_line(&mut line).unwrap_or(0)).unwrap_or(0);
+        let url = line.trim().strip_prefix("listening on ").map(|s| s.to_string());
+        let Some(url) = url.filter(|_| got > 0) else {
+            let _ = child.kill();
+            let _ = child.wait();
+            r.note_once("cli probe: the mock server binary did not come up (no IPv6 loopback?)");
+            continue;
+        };
+        r.evals(1);
+        r.hit("c17-cli-configured-key-id");
+        let mut rp = args.case_replay(0);
+        rp["probe"] = json!({"key_id": key_id, "explicit_key_path": explicit_key_path, "url": url});
+        let verdict = (|| -> Result<(), String> {
+            let uri = url.parse::<http::Uri>().map_err(|e| format!("advertised URL {url:?}: {e}"))?;
+            let host = uri.host().unwrap_or("").trim_start_matches('[').trim_end_matches(']').to_string();
+            let port = uri.port_u16().ok_or("no port")?;
+            let keys = PublicKeys { latest: PublicKeyAndId { id: key_id, key: vk }, historical: vec![] };
+            let handler = StandardCupv2Handler::new(&keys);
+            let w = World::new(Script::default());
+            let mut app = AppSpec::new("appid_01", [14, 20230831, 4, 72]);
+            app.cohort = [None, None, None];
+            let setup = Setup { service_url: url.clone(), apps: vec![app.clone()], ..Default::default() };
+            let config = make_config(&setup, &w);
+            let params = ParamsSnap::default_lib().to_lib();
+            let a = app.to_app();
+            let (req, meta) = RequestBuilder::new(&config, &params).add_update_check(&a).add_ping(&a).session_id(GUID::new()).request_id(GUID::new()).build(Some(&handler)).map_err(|e| format!("build: {e}"))?;
+            let meta = meta.ok_or("no metadata")?;
+            let (parts, body) = req.into_parts();
+            let body = block_on(hyper::body::to_bytes(body)).map(|b| b.to_vec()).unwrap_or_default();
+            let (status, etag, payload) = tcp_post(&host, port, &parts, &body)?;
+            if !status.starts_with("HTTP/1.1 200") {
+                return Err(format!("status {status:?}"));
+            }
+            let mut b = http::Response::builder().status(200);
+            if let Some(e) = &etag {
+                b = b.header("etag", e.as_slice());
+            }
+            let resp = b.body(payload).map_err(|e| e.to_string())?;
+            handler.verify_response(&meta, &resp, key_id).map(|_| ()).map_err(|e| format!("the client (latest key id {key_id}) rejects the answer: {e:?}; ETag {:?}", etag.map(|e| String::from_utf8_lossy(&e).to_string())))
+        })();
+        let _ = child.kill();
+        let _ = child.wait();
+        if let Err(why) = verdict {
+            r.violation("c17-cli-configured-key-id", &format!("c17-cli-configured-key-id explicit-key-path={}", explicit_key_path), format!("mock-omaha-server --key-id {} {}: {}", key_id, if explicit_key_path { "--key-path <test key>" } else { "(default key path)" }, why), rp);
+        }
+    }
+}
+
 /// The server started on a real socket (default, IPv4 and IPv6 loopback addresses) advertises a URL the client
 /// can use, and one client-built update check sent to it over TCP is answered like an in-process one.
 fn started_server_probe(args: &Args, r: &mut Report) {
@@ -340,12 +456,14 @@ pub fn run(args: &Args, r: &mut Report) {
         "c17-reconfiguration-takes-effect",
         "c17-etag-override-fails-validation",
         "c17-started-server-reachable",
+        "c17-cli-configured-key-id",
     ]);
     r.assume("ping-only requests are outside the statement (the mock asserts that an app without updatecheck carries an event)");
     let miri = args.layer == "miri";
     let n = if miri { 4 } else { args.budget(16_000, 200_000) };
     if !miri && args.only_case.is_none() {
         started_server_probe(args, r);
+        cli_probe(args, r);
     }
     // ---- (1) + (3)
     for i in 0..n {
@@ -460,16 +578,27 @@ pub fn run(args: &Args, r: &mut Report) {
                 match res {
                     Ok(Ok(resp)) if resp.status().is_success() => {
                         cur_cfg = cfg2;
+                        let moved_cohort = rng.bool();
                         // the very next update check must see the new package names
                         let lib_params = params.to_lib();
                         let mut b = RequestBuilder::new(&config, &lib_params);
                         for a in &apps {
-                            let app = a.to_app();
+                            let mut app = a.to_app();
+                            // an app whose cohort is no longer asserted by the new configuration may have moved on
+                            if cur_cfg.get(&a.id).map(|c| c.cohort_assertion.is_none()).unwrap_or(false) && moved_cohort {
+                                app.cohort.id = Some("moved:1:".to_string());
+                            }
                             b = b.add_update_check(&app).add_ping(&app);
                         }
                         let built = if cup { b.build(Some(&handler)) } else { b.build(None::<&StandardCupv2Handler>) };
                         if let Ok((req, meta)) = built {
-                            if let Ok(Ok(x)) = guard(|| exchange(&server, req, meta)) {
+                            let after = guard(|| exchange(&server, req, meta));
+                            if let Err(p) = &after {
+                                let mut rp = args.case_replay(i);
+                                rp["ctx"] = json!("update check after reconfiguration");
+                                r.violation("c17-no-panic", &p.sig(), format!("case {}: after a reconfiguration the mock panicked on the next update check: {} at {}", i, p.msg, p.loc), rp);
+                            }
+                            if let Ok(Ok(x)) = after {
                                 let seen = String::from_utf8_lossy(&x.body).contains(&tag2);
                                 m.judge("c17-reconfiguration-takes-effect", seen, "", || format!("case {}: after POST /set_responses_by_appid returned, the next response does not carry the new package name {}", i, tag2));
                                 judge_document(&mut m, &x, &cur_cfg, "after reconfiguration");
